@@ -489,3 +489,17 @@ from pyvc.contract import CustomCheck as _CustomCheck          # noqa: E402
 SPECS.append(_CustomCheck('C07', 'Forest.lean', _lean_check('Forest.lean'), file='lemmas/Forest.lean',
                           clause='lemma G8 (a non-trivial member of sub[y] lies below some child of y) follows from the proved conjuncts '
                                  'G2 and G4 of the Forest invariant and well-foundedness of the parent relation (Lean 4, no sorry)'))
+
+
+# "a component whose unregistration has completed receives nothing further from its former tree" (C07) rests on the dispatcher
+# never using a handler list cached before the tree changed: the cache contract of _dispatcher (written for C01) is an obligation of
+# C07 as well.  (Imported lazily: core_handlers imports this module.)
+def _register_dispatcher_cache_under_C07():
+    import copy
+    from contracts import core_handlers as ch
+    for s in ch.SPECS:
+        if getattr(s, 'name', '') == 'Manager._dispatcher[cache]' and s.prop == 'C01':
+            c = copy.copy(s)
+            c.prop = 'C07'
+            SPECS.append(c)
+            return
